@@ -13,7 +13,7 @@ REQUIRED_MONITORS = ["decomposition@SD_svalsvec", "pick@FDD_mpe(function, Hermit
 ALL_STATES = ["band clipped by grid start", "band clipped by grid end", "selected frequency between lines", "maximum at band edge candidate",
               "several peaks in band", "non-square spectrum", "2 channels", "8 channels"]
 REQUIRED_STATES = ["band clipped by grid end", "selected frequency between lines", "several peaks in band", "non-square spectrum", "array object refilled in place", "band below 0 Hz while the dominant line of the grid is at Nyquist", "EFDD with cm=2",
-                   "selected frequencies of integer type", "overlapping / repeated selections in one call", "EFDD extraction repeated with another DF1"]
+                   "selected frequencies of integer type", "overlapping / repeated selections in one call", "EFDD extraction repeated with another DF1", "selections exactly on spectral lines"]
 RULE = ("spectral sequences: synthetic Hermitian (sums of rank-one bells with complex shapes + full-rank floor), half spectra from the 'cor' "
         "estimator, spectra of random responses through FDD / FDD_MS / EFDD; DF 1..15 line spacings, selected frequencies anywhere in the grid; "
         "postconditions on every SD_svalsvec and FDD_mpe call; non-trivial = band holds >= 3 lines and sigma1/sigma2 varies by > 1 % in it; "
@@ -137,6 +137,7 @@ def draw_requests(rng, freq, nsel=None):
         else:
             sel.append(float(rng.uniform(freq[1], freq[-2])))
     DF = float(rng.uniform(1.0, 15.0) * df)
+    draw_requests.on_grid = False
     u = rng.random()
     if u < 0.2:
         # the same peak asked for twice / overlapping bands in one call: every selection is answered on its own
@@ -144,7 +145,11 @@ def draw_requests(rng, freq, nsel=None):
         sel.append(float(base) if rng.random() < 0.4 else float(np.clip(base + rng.uniform(-0.6, 0.6) * DF, freq[0] + 0.2 * df, freq[-1])))
         if rng.random() < 0.5:
             sel.append(float(np.clip(base + rng.uniform(-0.6, 0.6) * DF, freq[0] + 0.2 * df, freq[-1])))
-    elif u < 0.4 and freq[-1] >= 4:
+    elif u < 0.55:
+        # selections exactly ON spectral lines (values copied from the frequency axis): the band is still searched
+        sel = [float(freq[int(rng.integers(1, len(freq) - 1))]) for _ in sel]
+        draw_requests.on_grid = True
+    elif u < 0.7 and freq[-1] >= 4:
         # whole numbers of integer type (python ints or an integer array)
         k = [int(v) for v in rng.integers(1, int(freq[-1]), size=len(sel))]
         sel = k if rng.random() < 0.5 else np.array(k, dtype=rng.choice([np.int64, np.int32]))
@@ -188,6 +193,8 @@ def run_synth(ctx, rng):
     if isinstance(sel, np.ndarray) or all(isinstance(v, int) for v in sel):
         ctx.state("selected frequencies of integer type")
     sel = [float(v) for v in sel]
+    if draw_requests.on_grid:
+        ctx.state("selections exactly on spectral lines")
     if len(sel) >= 2 and min(abs(a - b) for i, a in enumerate(sel) for b in sel[i + 1:]) < 2 * DF:
         ctx.state("overlapping / repeated selections in one call")
     Fn, Phi = fdd.FDD_mpe(Sval, Svec, freq, sel_arg, DF=DF)
@@ -265,6 +272,9 @@ def run_classes(ctx, rng):
                 DFi = float(rng.uniform(0.6, 1.5))
                 ss.mpe("fdd", sel_freq=ints + ints[:1], DF=DFi)
                 check_pick(ctx, "pick@FDD.mpe", "cls", np.asarray(a.result.Sy), np.asarray(a.result.freq), [float(v) for v in ints + ints[:1]], DFi, a.result.Fn, a.result.Phi)
+        if rng.random() < 0.5:
+            fr = np.asarray(a.result.freq)
+            sel = sorted({float(fr[int(np.clip(np.argmin(np.abs(fr - f)) + rng.integers(-3, 4), 1, len(fr) - 2))]) for f in fn})
         ss.mpe("fdd", sel_freq=list(sel), DF=DF)
         check_pick(ctx, "pick@FDD.mpe", "cls", np.asarray(a.result.Sy), np.asarray(a.result.freq), sel, DF, a.result.Fn, a.result.Phi)
         del rec[:]
